@@ -514,9 +514,17 @@ pub fn c05_sched(ctx: &mut Ctx) {
 
 /// free-running (uncontrolled) run with the write log on: the C14 lattice
 fn c14_lattice_case(ctx: &mut Ctx, case: &OligoCase) {
-    let inp = format!("{}/lat_in.fa", ctx.scratch);
+    let mut inp = format!("{}/lat_in.fa", ctx.scratch);
     let outp = format!("{}/lat_out.txt", ctx.scratch);
-    {
+    // half of the cases whose records all have bases (by case parity) arrive as FASTQ wrapped at 3, with quality lines
+    // that start with '@' and '+': the size of the mapping comes from a counting pass over the same file
+    if !case.records.is_empty() && case.records.iter().all(|r| !r.is_empty()) && (case.k + case.threads + case.records.len()) % 2 == 0 {
+        use crate::files::{serialise, Rec, Ser};
+        let recs: Vec<Rec> = case.records.iter().enumerate().map(|(i, r)| Rec { header: format!("r{} d", i), bases: r.clone() }).collect();
+        let (text, _) = serialise(&recs, Ser::FastqWrap(3));
+        inp = format!("{}/lat_in.fq", ctx.scratch);
+        std::fs::write(&inp, text).expect("write fastq");
+    } else {
         // the second record has an empty header line (no id): the size of the mapping must not depend on ids
         let mut data: Vec<u8> = Vec::new();
         for (i, r) in case.records.iter().enumerate() {
@@ -1471,6 +1479,36 @@ pub fn c05_record_set(tag: &str) -> Vec<Vec<u8>> {
         }
         // enough short records for one batch of more than 32 MiB (2^25 bytes) of output text at k = 5
         "nine-thousand" => (0..9_000usize).map(|i| crate::files::long_bases(12 + i % 40, i)).collect(),
+        // pairs of records whose A-share (k = 1) are the two fractions with totals up to 40 000 closest to a 6-decimal
+        // rounding boundary, one on either side (neighbours in the Farey sequence: they differ by 1/(T1 T2), far less
+        // than single precision resolves, and are printed differently)
+        "rounding-neighbours" => {
+            let mut v: Vec<Vec<u8>> = Vec::new();
+            for i in 0..40u64 {
+                let j = (774_965 + i * 35_711) % 1_000_000;
+                // the boundary (2j + 1) / 2 000 000, approached from both sides in the Stern-Brocot tree
+                let (tp, tq) = (2 * j + 1, 2_000_000u64);
+                let (mut a, mut b, mut c, mut d) = (0u64, 1u64, 1u64, 1u64);
+                while b + d <= 40_000 {
+                    let (mp, mq) = (a + c, b + d);
+                    if mp * tq < tp * mq {
+                        a = mp;
+                        b = mq;
+                    } else {
+                        c = mp;
+                        d = mq;
+                    }
+                }
+                for (num, den) in if i % 2 == 0 { [(a, b), (c, d)] } else { [(c, d), (a, b)] } {
+                    if den >= 3000 {
+                        let mut r = vec![b'A'; num as usize];
+                        r.extend(std::iter::repeat(b'C').take((den - num) as usize));
+                        v.push(r);
+                    }
+                }
+            }
+            v
+        }
         // read-like records: irregular lengths of tens to thousands of bases, mixed case, U, several ambiguous bytes
         "reads" => crate::iters::medium_inputs(400),
         // records beyond 100 000 and 1 000 000 bases in the middle and at the end, short ones before and between
@@ -1734,6 +1772,15 @@ pub fn c05_lattice(ctx: &mut Ctx) {
         for (writer, threads, header, delim) in [("batch", 4usize, true, ","), ("batch", 1, false, " "), ("mmap", 3, true, ",")] {
             if sh.mine() {
                 c05_config(ctx, "nine-thousand", &recs, 5, "fasta", threads, 4 << 30, writer, header, delim);
+                n += 1;
+            }
+        }
+    }
+    {
+        let recs = c05_record_set("rounding-neighbours");
+        for (writer, threads) in [("batch", 1usize), ("mmap", 1), ("mmap", 2), ("batch", 3)] {
+            if sh.mine() {
+                c05_config(ctx, "rounding-neighbours", &recs, 1, "fasta", threads, 4 << 30, writer, false, " ");
                 n += 1;
             }
         }
